@@ -596,7 +596,7 @@ func describeErrCond(c *chk.Ctx, cd ir.Cond, sentinel *ssa.Global) string {
 		}
 	}
 	if call, ok := cd.V.(*ssa.Call); ok {
-		if g := call.Call.StaticCallee(); g != nil && g.Name() == "IsErrClosing" {
+		if g := call.Call.StaticCallee(); g != nil && ir.BaseName(g) == "IsErrClosing" {
 			return neg + "IsErrClosing"
 		}
 	}
